@@ -136,7 +136,15 @@ def analyse26(ck):
         srt = mv.calls(lambda t: t.get("name") == "sort")
         ext = [e for e in mv.effects if e.raw.get("name") == "extend_from_slice"]
         ok = len(hc) == 1 and len(ext) == 1
-        if ok:
+        dele = mv.calls(lambda t: t.get("name") == "hash_node_presorted") if sorts else []
+        if sorts and not hc and not ext and len(dele) == 1:
+            # hash_node = sort a local copy, then hand it to hash_node_presorted (whose concatenation and hashing are decided on their own
+            # just below): the argument is the sorted local, the sort dominates the call, the callee's Result is returned unchanged
+            ls, la = (_root_local(mv.body, srt[0][1]["args"][0]) if len(srt) == 1 else None), _root_local(mv.body, dele[0][1]["args"][0])
+            rt = P.norm(mv.fr.return_term())
+            ok = (ls is not None and ls == la and ls > mv.body.argc and mv.dom(srt[0][0], dele[0][0]) and cfg.postdominates(mv.body, dele[0][0], 0)
+                  and (P.call_name(rt) or "").endswith("hash_node_presorted"))
+        elif ok:
             lp = circ.loops_of(ext[0])
             src = P.norm(lp[0]) if len(lp) == 1 else None
             ok = src is not None and P.norm(ext[0].args[1]) == ("elem", lp[0])
